@@ -807,6 +807,12 @@ func (b *builder) tinyTimeout(i int) *scenario {
 	sc := &scenario{name: "tiny" + strconv.Itoa(i), bs: 2, bb: 1 << 20, ma: 2, async: i%3 != 2, compl: i%2 == 0, wtopic: "t",
 		timeout: time.Duration(1+r.Intn(30)) * time.Microsecond, nparts: map[string]int{"t": 1}, faults: map[tpKey][]fault{}, closeAt: -1,
 		sinkDelay: map[string]time.Duration{"PW.NewBatch": time.Duration(60+r.Intn(120)) * time.Microsecond}}
+	if i%2 == 1 {
+		// the append window: every append of a long call is stalled (inside ptw.mutex) while the batch's timer has
+		// long expired and the batch is far from full — the timer goroutine must wait for the whole call
+		sc.bs = 64
+		sc.sinkDelay = map[string]time.Duration{"PW.Add": time.Duration(80+r.Intn(120)) * time.Microsecond}
+	}
 	ncallers := 1 + r.Intn(2)
 	for c := 0; c < ncallers; c++ {
 		var calls []callSpec
